@@ -111,6 +111,9 @@ class Assembler:
                 try:
                     if target[1] in ("'", '"'): # quoted ascii character
                         number = ord(target[2])
+                        # only the closing quote may follow the character
+                        if target[3:] not in ('', target[1]):
+                            raise SyntaxError(statement)
                     else:
                         number = self._address_parser.number(target[1:])
                 except IndexError:
